@@ -1,14 +1,14 @@
 SPECIFICATION Spec
 CONSTANTS
-  Cls = {"P", "N"}
-  MsgKinds = {"explicit", "class"}
+  Cls = {"P"}
+  MsgKinds = {"kwtemplate", "kwcustom"}
   Outs = {"T", "F"}
   DelayCls = {}
   Vals = {"o1"}
   Depth = 3
-  MaxObjs = 1
-  Parents = {"none", "str"}
-  Fmts = {"F1", "F2"}
+  MaxObjs = 2
+  Parents = {"none"}
+  Fmts = {"F1", "F2", "F3"}
   Variant = "impl"
 INVARIANT ExactlyOnce
 INVARIANT RightList
